@@ -317,6 +317,7 @@ def doc_operation_types(track_rst="/repo/docs/track.rst"):
 # --------------------------------------------------------------------------- generator
 
 ODD_STRINGS = ["plain", "with space", "naïve café", 'q"uote', "back\\slash", "tab\there", "日本", "a/b:c", "100%"]
+JINJA_GLOBAL_NAMES = ["range", "dict", "namespace", "cycler", "joiner", "lipsum"]
 MARKUP_STRINGS = ["R&D", "<logs-{now/d}>", "a>b", "x&y<z", "1 < 2 && 3 > 2"]
 SIMPLE_WORDS = ["alpha", "beta", "gamma", "delta", "logs", "geo", "nyc", "so", "pmc", "http"]
 TIME_KEYS = ("warmup-iterations", "iterations", "warmup-time-period", "time-period", "ramp-up-time-period")
@@ -360,6 +361,12 @@ class Gen:
             return P(name, eff, eff, "setvar", False), eff
         name = self.fresh(prefix)
         supplied = rng.random() < self.p_supplied
+        if supplied and isinstance(eff, int) and not isinstance(eff, bool) and rng.random() < 0.04:
+            free = [g for g in JINJA_GLOBAL_NAMES if g not in self.params]
+            if free:
+                # a perfectly good parameter name that happens to be one of Jinja's own global names
+                name = rng.choice(free)
+                self.features.add("param-named-like-a-jinja-global")
         if supplied:
             if isinstance(eff, bool):
                 default = not eff
